@@ -322,7 +322,7 @@ def setup():
         print(log[-3000:])
         return 1
     ctx = stages.Ctx('quick', int(os.environ.get('VERIF_SEED', '0') or 0))
-    exp = ctx.stage('expander', stages.expander_build)
+    exp = ctx.stage('expander', lambda: stages.expander_build(ctx.dir))
     print('expander build:', 'ok' if exp['ok'] else 'FAILED')
     b = ctx.stage('k2build', lambda: k2run.k2_build(ctx))
     print('k2 build:', 'ok' if b['ok'] else 'FAILED: ' + b.get('why', ''))
